@@ -328,6 +328,13 @@ func NewCommitVoteSetFromBytes(bs []byte) module.CommitVoteSet {
 	if err != nil {
 		return nil
 	}
+	for i := range vl.Items {
+		// a signature without recovery byte can be parsed but neither
+		// re-encoded nor used to recover the voter
+		if sig := vl.Items[i].Signature.Signature; sig != nil && !sig.HasV() {
+			return nil
+		}
+	}
 	return vl
 }
 
